@@ -153,10 +153,12 @@ class Run:
             lines.append(f"... and {len(new) - 25} further violations of {self.pid} (not written)")
         discharged = sum(1 for o in self.obligations if o["status"] == "discharged")
         code = 0
-        if self.errors:
-            code = 3
-        elif new:
+        if new:
+            # a violation stands on its own evidence (replayed input / refuted obligation) even when
+            # another part of the checker failed; the errors are still printed and recorded
             code = 1
+        elif self.errors:
+            code = 3
         elif self.undecided:
             code = 2
         cov = {
@@ -227,8 +229,24 @@ def pmap(func, items, chunksize=None, nproc=None, fresh_process_per_item=False):
     if fresh_process_per_item:
         with ctx.Pool(nproc, maxtasksperchild=1) as pool:
             return pool.map(_wrap, [(func, a) for a in items], chunksize=1)
-    with ctx.Pool(nproc) as pool:
-        return pool.map(_wrap, [(func, a) for a in items], chunksize=chunksize)
+    # ProcessPoolExecutor (not Pool): a worker that dies (e.g. killed for memory) breaks the pool with
+    # an exception -> checker error (exit 3), where Pool.map would wait for the lost task for ever
+    from concurrent.futures import ProcessPoolExecutor
+    with ProcessPoolExecutor(nproc, mp_context=ctx, initializer=_limit_worker_memory) as ex:
+        return list(ex.map(_wrap, [(func, a) for a in items], chunksize=chunksize))
+
+
+WORKER_MEM_LIMIT = int(os.environ.get("VERIF_WORKER_MEM_GB", "3")) << 30
+
+
+def _limit_worker_memory():
+    """address-space limit per worker (16 x 3 GiB stays under the 62 GiB of the sandbox): exhausting
+    it raises MemoryError inside the worker, reported as a checker error for that item"""
+    try:
+        import resource
+        resource.setrlimit(resource.RLIMIT_AS, (WORKER_MEM_LIMIT, WORKER_MEM_LIMIT))
+    except Exception:  # noqa
+        pass
 
 
 def merge_worker_results(results, rule, sample_limit=8):
